@@ -160,14 +160,31 @@ def recount(data):
 def build_case(kind, seed, nops):
     """a schema-respecting model: constructed, or a shipped schema-valid document, plus schema-respecting edits"""
     import collada
+    pre = []
     if kind == 'constructed':
         gen = modelgen.Gen(seed, dict(schema=True, need_geom=True))
         doc = gen.build()
+    elif kind == 'reloaded':
+        # a schema-valid file as other tools write it: <scene> is optional, top-level <extra> elements come last
+        import re
+        r0 = random.Random('c04r/%s' % seed)
+        gen = modelgen.Gen(seed, dict(schema=True, need_geom=True))
+        b = io.BytesIO()
+        gen.build().write(b)
+        data = b.getvalue()
+        if r0.random() < 0.6:
+            data = re.sub(rb'<scene>.*?</scene>|<scene\s*/>', b'', data, flags=re.S)
+            pre.append('file:no-scene')
+        if r0.random() < 0.7:
+            data = data.replace(b'</COLLADA>', b'<extra><technique profile="TOOL"><note>x</note></technique></extra>' * r0.randint(1, 2) + b'</COLLADA>')
+            pre.append('file:top-level-extra')
+        doc = collada.Collada(io.BytesIO(data))
+        gen.doc = doc
     else:
         doc = collada.Collada(os.path.join(DATA, kind))
         gen = modelgen.Gen(seed, dict(schema=True))
         gen.doc = doc
-    hist = []
+    hist = list(pre)
     for i in range(nops):
         try:
             d = editgen.apply(doc, seed, i, gen)
@@ -175,6 +192,9 @@ def build_case(kind, seed, nops):
             return None, hist
         if d:
             hist.append(d)
+    if pre and doc.scene is None and len(doc.scenes) and seed % 2 == 0:
+        doc.scene = doc.scenes[0]
+        hist.append('default_scene:set')
     if seed % 3 == 0:
         hist.append(optional_children_exercise(doc, random.Random('c04o/%s' % seed)))
     schema_respecting(doc)
@@ -218,7 +238,7 @@ def run(ctx):
         ctx.count('corpus:%s' % ('schema-valid' if ok else 'not schema-valid'))
         if ok:
             corpus.append(f)
-    bases = ['constructed'] * 3 + corpus
+    bases = ['constructed'] * 3 + ['reloaded'] * 2 + corpus
     for i in range(ctx.n(220, 6000)):
         kind = bases[i % len(bases)]
         seed = ctx.rng.randrange(10 ** 9)
